@@ -63,7 +63,10 @@ static void fill(void* p, size_t n)
 #define MAXW 20
 static word A[2 * MAXW + 4], Bv[2 * MAXW + 4], C[2 * MAXW + 4], MOD[MAXW + 2], PAR[MAXW + 4];
 static octet STACK[16384];
-static octet M1[160], M2[160];
+static octet M1_[176], M2_[176];
+static size_t OFF;	/* misalignment of the presented buffers: 0, 1, 4 */
+#define M1 (M1_ + OFF)
+#define M2 (M2_ + OFF)
 static char HEX[330];
 static volatile size_t sink;
 
@@ -248,7 +251,9 @@ T_U(u64CLZ, u64, u64CLZ(w), u64CLZ_fast(w))
 
 /* ---- belt / bash verification entry points and primitives --------------------------------------------------
    key, data and tag are secret.  `v & 1` selects a right or a wrong tag (wrong at position (v>>1) % taglen). */
-static octet KEY[32], IV[16], DATA[256], AD[64], TAG[64], HDR[16];
+static octet KEY[32], IV[16], DATA[256], AD[64], TAG_[80], HDR_[32];
+#define TAG (TAG_ + OFF)
+#define HDR (HDR_ + OFF)
 static octet STATE[4096] __attribute__((aligned(16)));
 
 static void gen_sym(size_t n)
@@ -427,9 +432,11 @@ int main(int argc, char** argv)
 		{
 			if (only && strcmp(only, "all") && strcmp(only, targets[t].name)) continue;
 			if (fast && targets[t].has_fast != 1) continue;
+			for (OFF = 0; OFF <= 4; OFF = OFF ? OFF * 4 : 1)
 			for (n = targets[t].lo; n <= targets[t].hi; n += step)
 				for (v = 0; v < nvar; ++v)
 					targets[t].run(n, v * 7 + (int)n, fast), ++cases;
+			OFF = 0;
 		}
 		printf("{\"mode\":\"taint\",\"fast\":%d,\"cases\":%zu}\n", fast, cases);
 		return 0;
@@ -444,6 +451,7 @@ int main(int argc, char** argv)
 		{
 			if (only && strcmp(only, "all") && strcmp(only, targets[t].name)) continue;
 			if (fast && targets[t].has_fast != 1) continue;
+			for (OFF = 0; OFF <= 4; OFF = OFF ? OFF * 4 : 1)
 			for (n = targets[t].lo; n <= targets[t].hi; n += step)
 			{
 				uint64_t first[2] = {0, 0}, edges = 0; int distinct = 1, badv = -1, seen[2] = {0, 0};
@@ -457,8 +465,8 @@ int main(int argc, char** argv)
 					if (!seen[cls]) first[cls] = trace_hash, edges = trace_edges, seen[cls] = 1;
 					else if (trace_hash != first[cls]) { ++distinct; if (badv < 0) badv = vv; }
 				}
-				printf("%s{\"t\":\"%s\",\"fast\":%d,\"n\":%zu,\"diff\":%d,\"edges\":%llu,\"v\":%d}",
-					firstrec ? "" : ",", targets[t].name, fast, n, distinct - 1,
+				printf("%s{\"t\":\"%s\",\"fast\":%d,\"n\":%zu,\"off\":%zu,\"diff\":%d,\"edges\":%llu,\"v\":%d}",
+					firstrec ? "" : ",", targets[t].name, fast, n, OFF, distinct - 1,
 					(unsigned long long)edges, badv);
 				firstrec = 0;
 			}
